@@ -160,6 +160,7 @@ inductive TopOp
   | sigPrepare (e : Nat)                  -- `AutoDespawner::prepare`
   | sigClone (a : Nat)
   | sigDrop (a : Nat)
+  | sigThreads (a n : Nat)                -- clone `n` times, drop the clones on `n` worker threads while the main thread collects
 deriving DecidableEq, Repr, Inhabited
 
 /-- What the readers of a scripted body return (sampled by its first statement). -/
@@ -185,6 +186,7 @@ inductive Ev
   | send (pid : Nat)
   | dropPayload (pid : Nat)
   | expect (sys : Nat) (obs : Obs)      -- ghost: what the readers should return for the command that caused this run
+  | insNoop (e ty : Nat)                -- ghost: an insertion reaction was requested for an entity without the component
   | misclaim (sys : Nat)                -- ghost: a tracker `start` claimed metadata prepared by another command
   | canary (sys : Nat)
   | applied (sys : Nat)
